@@ -33,9 +33,11 @@ def run(workdir, goenv, log):
             continue
         text = r.stdout
         out["evaluations"] += 1
-        rejected = "problems when validating the options" in text or "Validating options: [FAIL]" in text
-        passed = "Validating options: [PASS]" in text
-        went_on = "Using in cluster config" in text or "Using out of cluster config" in text
+        low = text.lower()
+        rejected = "problems when validating" in low or "[fail]" in low
+        passed = "[pass]" in low
+        # past the gate escalator goes on to build its Kubernetes client, which fails here for want of a cluster
+        went_on = "cluster config" in low or "kubeconfig" in low or "kubernetes_service_host" in low
         violated = c.get("violated") or []
         if rejected and not went_on:
             sig = "gate:rejected:" + (violated[0] if len(violated) == 1 else ("several" if violated else "although-safe"))
